@@ -78,7 +78,8 @@ def find(lst: list[dict], key: str, value: Any) -> dict | None:
         cmp = mappyfile.find(d["layers"], "name", "Layer2")
         assert cmp["name"] == "Layer2"
     """
-    return next((item for item in lst if item[key.lower()] == value), None)
+    key = key.lower()
+    return next((item for item in lst if key in item and item[key] == value), None)
 
 
 def findall(lst: list[dict], key: str, value: Any) -> list[dict]:
@@ -136,7 +137,8 @@ def findall(lst: list[dict], key: str, value: Any) -> list[dict]:
         layers = mappyfile.findall(d["layers"], "group", "test")
         assert len(layers) == 2
     """
-    return [item for item in lst if item[key.lower()] and item[key.lower()] in value]
+    key = key.lower()
+    return [item for item in lst if key in item and item[key] and item[key] in value]
 
 
 def findunique(lst, key):
@@ -240,6 +242,9 @@ def findkey(d: dict, *keys: list[Any]) -> dict:
     if keys:
         keys_list = list(keys)
         search_key = keys_list.pop(0)
+        if isinstance(d, dict) and search_key not in d:
+            # do not let a DefaultOrderedDict create the missing key
+            raise KeyError(search_key)
         return findkey(d[search_key], *keys_list)
 
     return d
